@@ -240,9 +240,9 @@ class Pools:
 def random_op(p, rng):
     r = rng.random()
     if r < 0.25:
-        return {"op": "parse", "text": p.text(), "via": rng.choice(["schema_iter"] * 6 + ["maker"] * 2 + ["loader", "ext", "ext"])}
+        return {"op": "parse", "text": p.text(), "via": rng.choice(["schema_iter"] * 5 + ["maker"] * 3 + ["loader", "ext", "ext"])}
     if r < 0.37:
-        return {"op": rng.choice(["make_std", "make_ext", "make_ext"]), "keep": rng.random() < 0.5}
+        return {"op": rng.choice(["make_std", "make_std", "make_ext", "make_ext"]), "keep": rng.random() < 0.6}
     if r < 0.55:
         via = rng.choice(["class", "class", "instance", "ext"])
         if rng.random() < 0.6:
@@ -263,7 +263,7 @@ def random_op(p, rng):
 def random_probe(p, rng, history):
     r = rng.random()
     if r < 0.40:
-        return {"probe": "parse", "text": p.text(), "via": rng.choice(["schema_iter", "schema_iter", "schema_iter", "maker"])}
+        return {"probe": "parse", "text": p.text(), "via": rng.choice(["schema_iter", "schema_iter", "maker"])}
     if r < 0.65:
         return {"probe": "load", "doc": p.doc()}
     kept = [o for o in history if o["op"] == "nav" and o.get("keep")]
@@ -293,6 +293,12 @@ def directed(p):
     out.append({"history": [par("frag_then_01", "loader"), par("frag_redef")], "probe": pp("frag_redef")})
     out.append({"history": [{"op": "make_std", "keep": True}, par("redef_ok", "maker"), par("frag_redef", "maker")],
                 "probe": pp("redef_ok", "maker")})
+    # one long-lived maker, two different copybooks whose items get the same unique names
+    out.append({"history": [{"op": "make_std", "keep": True}, par("frag2", "maker")], "probe": pp("frag_unnamed", "maker")})
+    out.append({"history": [{"op": "make_std", "keep": True}, par("rec_fillers", "maker"), par("two_recs", "maker")],
+                "probe": pp("two_recs", "maker")})
+    out.append({"history": [{"op": "make_std", "keep": True}, par("two_recs", "maker"), par("frag_then_01", "maker")],
+                "probe": {"probe": "parse", "text": T["two_recs"].replace("PIC XX", "PIC X(7)").replace("B-1", "B-2"), "via": "maker"}})
     # the generated document is loaded, printed, used; then parsed again
     out.append({"history": [par("redef_ok"), {"op": "load", "doc": None, "ref": 0, "via": "class"}, {"op": "print", "k": 0},
                             {"op": "load", "doc": None, "ref": 0, "via": "instance"}], "probe": pp("redef_ok")})
